@@ -249,7 +249,7 @@ def step (s : St) (ws : List String) : St × String :=
       match i.toNat? with
       | some i =>
           match s.slot.st.broker.record[i]? with
-          | some e => (s, s!"{e.time} {showRat e.interest} {showRat e.nlvPre} {showRat e.nlvPost} {showRat e.cashPre} {showRat e.cashPost}")
+          | some e => (s, s!"{e.time} {showRat e.interest} {showRat e.nlvPre} {showRat e.nlvPost} {showRat e.cashPre} {showRat e.cashPost} ppre={showKV e.posPre} mpre={showKV e.marginPre} ppost={showKV e.posPost} mpost={showKV e.marginPost}")
           | none => (s, "none")
       | none => (s, "bad-op")
   | ["book", k] =>
